@@ -117,7 +117,9 @@ unsafe impl GlobalAlloc for Alloc {
             if result.is_null() {
                 self.used.fetch_sub(new_size, Ordering::Release);
             } else {
-                self.used.fetch_sub(old_size, Ordering::Release);
+                // A grown block can raise the usage to a new peak.
+                let used = self.used.fetch_sub(old_size, Ordering::Release) - old_size;
+                self.max.fetch_max(used, Ordering::Relaxed);
             }
             result
         } else {
